@@ -1,27 +1,32 @@
 #!/usr/bin/env python3
-"""mutate.py PATCH [CHECK...] : apply PATCH to /repo, run the quick checks in parallel, undo.
-Prints one line: patch name, then id=exit for every check."""
-import subprocess, sys, os, concurrent.futures as cf
+"""mutate.py PATCH [CHECK...] : apply PATCH to a scratch worktree of /repo (never to /repo itself),
+run the checks against it (VIP_REPO), remove the worktree.  Prints: patch name, then id=exit."""
+import subprocess, sys, os, shutil, concurrent.futures as cf
 patch = os.path.abspath(sys.argv[1])
-checks = sys.argv[2:] or ["C01","C02","C03","C04","C05","C06","C07","C08","C09","C11","C12"]
+checks = sys.argv[2:] or ["C01","C02","C03","C04","C05","C06","C07","C08","C09","C11","C12","C19"]
 tier = os.environ.get("MUT_TIER", "quick")
-assert subprocess.run(["git","-C","/repo","status","--porcelain"],capture_output=True,text=True).stdout.strip()=="" , "/repo not clean"
-subprocess.check_call(["git","-C","/repo","apply",patch])
+tag = os.path.basename(os.path.dirname(patch)) + "_" + os.path.basename(patch).replace(".diff", "")
+wt = "/tmp/mut/" + tag[:40] + "_%d" % os.getpid()
+os.makedirs("/tmp/mut", exist_ok=True)
+subprocess.check_call(["git", "-C", "/repo", "worktree", "add", "-q", "--detach", wt, "HEAD"])
 try:
-    # build check (must compile)
+    subprocess.check_call(["git", "-C", wt, "apply", patch])
+    env = dict(os.environ, VIP_REPO=wt)
     def run(c):
-        p = subprocess.run(["/verif/check", c, "--tier", tier], capture_output=True, text=True)
+        p = subprocess.run(["/verif/check", c, "--tier", tier], capture_output=True, text=True, env=env)
         why = ""
         for l in p.stdout.splitlines():
-            if "rejected at line" in l or "MACHINERY" in l:
-                why = l.strip()[:160]
+            if "rejected at line" in l or "MACHINERY" in l or l.startswith("  "):
+                why = l.strip()[:200]
         return c, p.returncode, why
-    with cf.ThreadPoolExecutor(max_workers=6) as ex:
-        res = list(ex.map(run, checks))
+    # first one alone (builds the binaries), the rest in parallel
+    res = [run(checks[0])]
+    with cf.ThreadPoolExecutor(max_workers=int(os.environ.get("MUT_PAR", "4"))) as ex:
+        res += list(ex.map(run, checks[1:]))
 finally:
-    subprocess.check_call(["git","-C","/repo","checkout","--","."])
-    subprocess.run(["git","-C","/repo","clean","-fdq"])
-print(os.path.basename(patch), " ".join("%s=%d" % (c, rc) for c, rc, _ in res))
+    subprocess.call(["git", "-C", "/repo", "worktree", "remove", "--force", wt])
+    shutil.rmtree("/verif/out/bin-" + wt.strip("/").replace("/", "_"), ignore_errors=True)
+print(tag, " ".join("%s=%d" % (c, rc) for c, rc, _ in res), flush=True)
 for c, rc, why in res:
     if rc != 0:
-        print("    ", c, why)
+        print("    ", c, why, flush=True)
